@@ -79,4 +79,50 @@ structure AdaptorCall where
   wrap   : String      -- what happens to the result: `!=0`, `SimpleString`, or nothing
 deriving DecidableEq, Repr, Inhabited
 
+/-- one statement of the node-freeing loops of `removeAllComparatorsAndCopiers_c` -/
+inductive NStmt
+  | loadNext (list : String) (member : String)   -- `T* next = L->member;`
+  | delete (list : String)                       -- `delete L;`
+  | advance (list : String)                      -- `L = next;`
+  | other (text : String)
+deriving DecidableEq, Repr, Inhabited
+
+/-- `while (cond) { body }` -/
+structure NLoop where
+  cond : String
+  body : List NStmt
+deriving DecidableEq, Repr, Inhabited
+
+/-- constructor of an adaptor node class: parameter names in order, and the member initialiser list
+    (member, expression) -/
+structure NodeCtor where
+  cls    : String
+  params : List String
+  inits  : List (String × String)
+deriving DecidableEq, Repr, Inhabited
+
+/-- `failTest` of a `MockFailureReporter` class: `if (guard) getTestToFail()->callee(failure, termClass(termArg));` -/
+structure ReporterDesc where
+  cls       : String
+  guard     : String
+  callee    : String
+  termClass : String
+  termArg   : String
+deriving DecidableEq, Repr, Inhabited
+
+/-- `exitCurrentTest` of a terminator class: `if (crashGuard) crashCall(); UtestShell::exitVia().exitCurrentTest();` -/
+structure TermDesc where
+  cls        : String
+  crashGuard : String
+  crashCall  : String
+  exitVia    : String
+deriving DecidableEq, Repr, Inhabited
+
+/-- `currentMockSupport = &mock(scopeArg [, reporterArg]);` of `mock_c` / `mock_scope_c` -/
+structure MockCallDesc where
+  fwd      : String
+  scopeArg : String
+  reporter : Option String
+deriving DecidableEq, Repr, Inhabited
+
 end MockC
